@@ -22,8 +22,8 @@ RULE = ("systematic single-edit neighbourhoods of a fixed corpus + seeded mutati
         "distinct = distinct (text, dialect, level)")
 ASSUMPTIONS = ["nesting depth of inputs stays far below the interpreter's recursion limit, so RecursionError is the library's"]
 SPEC = {
-    "quick": {"shards": 16, "time_cap": 200, "corpus_stride": 4, "dialects_per_stmt": 2, "seeded": 20000},
-    "thorough": {"shards": 16, "time_cap": 2400, "corpus_stride": 1, "dialects_per_stmt": 4, "seeded": 150000},
+    "quick": {"shards": 16, "time_cap": 200, "corpus_stride": 4, "dialects_per_stmt": 2, "seeded": 20000, "kw_stride": 3},
+    "thorough": {"shards": 16, "time_cap": 2400, "corpus_stride": 1, "dialects_per_stmt": 4, "seeded": 150000, "kw_stride": 1},
 }
 INSERTS = ["(", ")", ",", ".", "*", "NOT", "AND", "SELECT", "FROM", "BY", "AS", "NULL", "'x'", "1", "}", "{", "[", "]", ";",
            "=", "IN", "IS", "JOIN", "ON", "WITH", "CASE", "END", "ORDER", "GROUP", "OVER", "::", "->", "@", "?", ":", "$1", "--"]
@@ -46,6 +46,39 @@ def single_edits(sql):
         if 0 < i:
             yield "prefix", stmts.join_tokens(toks[:i])
         yield "ins", stmts.join_tokens(toks[:i] + [INSERTS[(i * 7 + n) % len(INSERTS)]] + toks[i:])
+
+
+KW_BASES = [
+    "SELECT a FROM t", "SELECT a FROM t AS x", "SELECT a FROM t WHERE a > 1", "SELECT a, b FROM t JOIN u ON t.k = u.k",
+    "SELECT a FROM t GROUP BY a", "SELECT a FROM t ORDER BY a", "SELECT f(a) OVER (PARTITION BY b) FROM t",
+    "WITH c AS (SELECT 1) SELECT * FROM c", "INSERT INTO t (a) VALUES (1)", "UPDATE t SET a = 1", "DELETE FROM t",
+    "CREATE TABLE t (a INT, b TEXT)", "ALTER TABLE t ADD COLUMN c INT", "SELECT CAST(a AS INT) FROM t", "SELECT CASE WHEN a THEN 1 END",
+    "MERGE INTO t USING s ON t.k = s.k", "SELECT * FROM t UNION SELECT * FROM u", "SELECT a FROM t LIMIT 1",
+]
+
+
+def all_keywords():
+    """every keyword text any dialect's tokenizer knows (workload vocabulary only, never an oracle)"""
+    from sqlglot.dialects.dialect import Dialect
+    from ..common import dialect_names
+
+    kws = set()
+    for d in dialect_names():
+        try:
+            kws |= {k for k in Dialect.get_or_raise(d).tokenizer_class.KEYWORDS if k and k.strip() == k}
+        except Exception:
+            pass
+    return sorted(kws)
+
+
+def keyword_neighbourhood():
+    """(base, position, keyword) -> text: every keyword inserted at every lexeme boundary of a few base statements"""
+    kws = all_keywords()
+    for bi, base in enumerate(KW_BASES):
+        toks = stmts.split_tokens(base)
+        for pos in range(1, len(toks) + 1):
+            for ki, kw in enumerate(kws):
+                yield bi, pos, ki, stmts.join_tokens(toks[:pos] + [kw] + toks[pos:])
 
 
 def call_site(exc):
@@ -206,6 +239,18 @@ def worker(ctx):
                 break
             ctx.count("systematic_inputs")
             run_input(ctx, text, ds, rng, f"systematic:{li}:{kind}")
+    # ---- (1b) keyword neighbourhood: every keyword at every boundary of a few base statements -----
+    import random as _random
+
+    stride = spec.get("kw_stride", 1)
+    for n, (bi, pos, ki, text) in enumerate(keyword_neighbourhood()):
+        if n % ctx.nshards != ctx.shard or (ki + pos + bi) % stride:
+            continue
+        if ctx.expired():
+            break
+        ctx.count("keyword_neighbourhood_inputs")
+        rng = _random.Random(f"kw:{n}")
+        run_input(ctx, text, [all_d[(bi * 5 + ki) % len(all_d)]], rng, f"keyword:{bi}:{pos}")
     # ---- (2) seeded -------------------------------------------------------------------
     for i in ctx.mine(spec["seeded"]):
         if ctx.expired():
